@@ -46,7 +46,7 @@ impl Engine for C01 {
         "C01"
     }
     fn rule(&self) -> String {
-        "a cache holding a victim entry and one other valid entry; one damage pattern applied to the victim's content file (bit flip, truncation, extension, \
+        "a cache holding a victim entry and one other valid entry; every checked retrieval entry point is first exercised on the pristine entry (must deliver the stored bytes), then one damage pattern is applied to the victim's content file (bit flip, truncation, extension, \
          emptying, garbage range, replacement by random bytes / by the other entry's bytes, swap with the other entry's file, symlink to another file / dangling / \
          directory, deletion); then EVERY checked retrieval entry point (read, read_hash, SyncReader/Reader with generated buffer sizes + check, copy, copy_hash, \
          hard_link*, reflink*) by key and by address in both flavours. Oracle: the call returns an error, or the delivered bytes (vector / stream after check() / \
@@ -143,6 +143,29 @@ impl Engine for C01 {
         }
         let addr = AddrRef { algo: c.algo, blob: 0 };
         let want_sri = blob::sri(c.algo, &orig);
+        // every entry point first on the pristine entry: it must deliver the stored bytes (this
+        // also primes whatever the implementation might remember between calls)
+        let want0 = (orig.len() as u64, sha256_hex(&orig));
+        for mut step in retrievals(&c.bufs) {
+            match &mut step.op {
+                Op::ReadHash { addr: a } => a.algo = c.algo,
+                Op::Stream { by: By::Addr(a), .. } | Op::Extract { by: By::Addr(a), .. } => a.algo = c.algo,
+                _ => {}
+            }
+            if matches!(step.op, Op::Extract { kind: XKind::Reflink, .. }) {
+                continue;
+            }
+            let r = run_step(&ctx, &step);
+            st.eval(1);
+            let ok = match &r.out {
+                Out::Bytes(n, hx) => (*n, hx.clone()) == want0,
+                Out::Extracted { dest: DestState::File(n, hx), .. } => (*n, hx.clone()) == want0,
+                _ => false,
+            };
+            if !ok {
+                return Err(format!("{:?}/{:?} on the undamaged {}-byte {} entry: {}", step.op, step.fl, orig.len(), c.algo.name(), r.out.short()));
+            }
+        }
         crate::damage::damage_content(&ctx, addr, &c.dmg);
         let obs = observe(&ctx.content_path(addr));
         let differs = match &obs {
